@@ -121,6 +121,17 @@ def prefix_scenario(root):
     return ops
 
 
+def wide_delete_scenario(root):
+    """`history delete N` removes exactly row N: row ids that agree with a stored row only modulo 2^32 / 2^31 / 2^16 / 2^8,
+    0 and 2^62-1 remove nothing (seed C18-delete-rowid-narrowed-to-i32)."""
+    ops = [{"k": "A", "line": "w%d" % i, "status": "0", "ts": 10 + i, "session": "s1", "dir": root + "/d1"} for i in range(5)]
+    lst = {"k": "L", "pattern": "", "s": False, "a": True, "p": False, "limit": 20, "session": "s1", "dir": root + "/d1"}
+    for n in [(1 << 32) + 1, (1 << 32) + 3, (1 << 31) + 2, (3 << 32) + 4, 65536 + 5, 256 + 1, 0, (1 << 62) - 1]:
+        ops += [{"k": "D", "n": n}, dict(lst)]
+    ops += [{"k": "D", "n": 2}, dict(lst), {"k": "D", "n": (1 << 32) + 2}, dict(lst)]
+    return ops
+
+
 def gen_scenario(rng, root, l2=False):
     """ops: dicts."""
     dirs_ok = ["d1", "d1x", "d1/sub", "a_b", "axb", "p%q", "日 é", 'q"r', "se;mi --x)"]   # d1 is a prefix of two others
@@ -160,7 +171,11 @@ def gen_scenario(rng, root, l2=False):
                         "p": rng.random() < 0.35, "limit": rng.choice([0, 1, 2, 3, 20, 20, 20]),
                         "session": rng.choice(["s1", "s2"] + ([] if l2 else ["s'3"])), "dir": d})
         else:
-            ops.append({"k": "D", "n": rng.randint(1, 6)})
+            nd = rng.randint(1, 6)
+            # every third delete names a row id whose low 32 / 31 / 16 / 8 bits are a small row id: nothing may be removed
+            # (no extra random draw: the stream of the other operations stays what it was)
+            wide = [0, 0, 1 << 32, 0, 3 << 32, 0, 1 << 31, 0, 1 << 16, 0, 1 << 8, (1 << 62) - 8][(len(ops) * 5 + nd) % 12]
+            ops.append({"k": "D", "n": nd + wide})
     if rng.random() < 0.35:
         ops.append({"k": "A", "line": rand_text(rng, SAFE_ALPHA if l2 else ALPHA, 1, 6).strip(WS) or "z", "status": "0",
                     "ts": ts_pool[n], "session": "s1", "dir": root + "/" + rng.choice(dirs_bad)})
@@ -381,7 +396,7 @@ def layer0(ctx, res):
 def layer1(ctx, res, V, work):
     rng = ctx.rng
     n = 1500 if ctx.thorough else 300
-    scns = [prefix_scenario("/w")] + [gen_scenario(rng, "/w") for _ in range(n)]
+    scns = [prefix_scenario("/w"), wide_delete_scenario("/w")] + [gen_scenario(rng, "/w") for _ in range(n)]
     if ctx.replay_ops and ctx.replay_layer == "L1":
         scns = [ctx.replay_ops]
     lines = []
@@ -462,7 +477,7 @@ def layer2(ctx, res, V, work):
     for i in range(n):
         root = os.path.join(work, "l2_%d" % i)
         os.makedirs(root)
-        scns.append(prefix_scenario(root) if i == 0 else gen_scenario(rng, root, l2=True))
+        scns.append(prefix_scenario(root) if i == 0 else wide_delete_scenario(root) if i == 1 else gen_scenario(rng, root, l2=True))
     if ctx.replay_ops and ctx.replay_layer == "L2":
         scns = scns[:1]
         root = os.path.join(work, "l2_0")
